@@ -41,7 +41,7 @@ def build_inf(vals, codes, func, engine, mode):
                       "engine": engine}, mode, codes)
 
 
-def build_int(vals, codes, func, engine, mode, dtype):
+def build_int(vals, codes, func, engine, mode, dtype, min_count=None):
     # keep every group total inside the model's 32-bit integers (and far inside the advertised 64-bit result dtype)
     for g in set(codes):
         mem = [v[0] for v, c in zip(vals, codes) if c == g]
@@ -50,7 +50,14 @@ def build_int(vals, codes, func, engine, mode, dtype):
             tot *= m
         if func in ("prod", "nanprod") and abs(tot) >= 2**31 - 1:
             return None
-    return with_mode({"func": func, "vals": vals, "dtype": dtype, "codes": codes, "label_kind": "int", "engine": engine}, mode, codes)
+    if min_count and func not in ("nansum", "nanprod"):
+        return None
+    if func in redcase.VAR_FUNCS | redcase.STD_FUNCS and dtype not in ("i1", "u1"):
+        return None     # keep squares and cross-products inside TLC's 32-bit integers
+    c = {"func": func, "vals": vals, "dtype": dtype, "codes": codes, "label_kind": "int", "engine": engine, "min_count": min_count}
+    if func in redcase.VAR_FUNCS | redcase.STD_FUNCS:
+        c["ddof"] = 0
+    return with_mode(c, mode, codes)
 
 
 def build_var(resid, offset, codes, func, engine, mode, ddof):
@@ -74,8 +81,8 @@ def run(ctx):
     for dt, alpha in (("i1", [gen.iv(-128), gen.iv(-100), gen.iv(100), gen.iv(127), gen.iv(2)]), ("u1", [gen.iv(200), gen.iv(255), gen.iv(3), gen.iv(128)]),
                       ("i2", [gen.iv(-32768), gen.iv(32767), gen.iv(30000), gen.iv(2)]), ("u2", [gen.iv(65535), gen.iv(40000), gen.iv(2)])):
         spaces.append(gen.Space(f"wrap-{dt}", {"vals": gen.seqs(alpha, 4), "codes": [[0, 0, 0, 0], [0, 1, 0, 1], [1, 0, 0, 0]],
-                                               "func": ["sum", "nansum", "prod", "nanprod", "mean", "max", "count"], "engine": ENGINES, "mode": MODES,
-                                               "dtype": [dt]}, build_int))
+                                               "func": ["sum", "nansum", "prod", "nanprod", "mean", "max", "count", "var", "nanvar", "std"], "engine": ENGINES, "mode": MODES,
+                                               "dtype": [dt], "min_count": [None, 1]}, build_int))
     resid = [[gen.iv(0), gen.iv(1), gen.iv(2), gen.iv(3), gen.iv(1), gen.iv(0)], [gen.iv(-2), gen.iv(2), gen.iv(0), gen.iv(5), gen.iv(5), gen.iv(-1)],
              [gen.iv(1), gen.NAN, gen.iv(4), gen.iv(2), gen.NAN, gen.iv(3)]]
     spaces.append(gen.Space("var-shift", {"resid": resid, "offset": [0, 10, 100, 1000], "codes": [[0, 0, 0, 0, 0, 0], [0, 1, 0, 1, 0, 1], [1, 1, 0, 0, 0, 1]],
